@@ -101,12 +101,12 @@ func c08Wire(t *rm.Type, w []byte) *ev.Violation {
 }
 
 func runC08(r *ev.Run, thorough bool) {
-	r.Rule = "per type: reference wires of V1 incl. non-canonical forms (over-long text cut, pad bytes everywhere, all-pad fields, stale computed fields) + every 1-byte substitution from {00,01,20,30,7F,80,FF}" + map[bool]string{true: " on every seed + every 2-byte substitution on the two base wires", false: " on the two base wires"}[thorough] + "; plus every strict prefix of the three base wires (Z, D, L); for each wire the library accepts: Encode(Decode(w)) == consumed bytes, differences allowed only inside self-computed fields which must then be correct; distinct = (type,wire); non-trivial = accepted by the decoder"
+	r.Rule = "per type: reference wires of V1 incl. non-canonical forms (over-long text cut, pad bytes everywhere, all-pad fields, stale computed fields) + every 1-byte substitution / insertion from {00,01,20,30,7F,80,FF} and every 1-byte deletion" + map[bool]string{true: " on every seed + every 2-byte substitution on the two base wires", false: " on the two base wires"}[thorough] + "; plus every strict prefix of the three base wires (Z, D, L); for each wire the library accepts: Encode(Decode(w)) == consumed bytes, differences allowed only inside self-computed fields which must then be correct; distinct = (type,wire); non-trivial = accepted by the decoder"
 	r.Assume("wires whose count/length prefix exceeds the input are explored by C09/C10 instead (resource-limited workers)")
 	parTypes(r, bind.Types, func(t *rm.Type, l *ev.Local) {
 		a, rj := int64(0), int64(0)
 		small := encLen(valenum.Distinct(t)) <= 200
-		wireSpace(t, wireOpts{Dev: 1, DevBaseOnly: !thorough, Dev2Base: thorough && small}, func(w []byte, desc string) bool {
+		wireSpace(t, wireOpts{Dev: 1, Indel: true, DevBaseOnly: !thorough, Dev2Base: thorough && small}, func(w []byte, desc string) bool {
 			key := ev.H(t.QName() + string(w))
 			l.States[key] = struct{}{}
 			l.Transitions += 2
